@@ -226,7 +226,7 @@ impl<'t, 'd> Gen<'t, 'd> {
 
     fn sty(&mut self) -> u8 {
         if self.cfg.spellings {
-            (self.t.below(4) as u8) | if self.t.chance(1, 4) { 0x80 } else { 0 } | if self.t.chance(1, 3) { 0x40 } else { 0 }
+            (self.t.below(4) as u8) | if self.t.chance(1, 4) { 0x80 } else { 0 } | if self.t.chance(1, 3) { 0x40 } else { 0 } | if self.t.chance(1, 3) { 0x10 } else { 0 }
         } else {
             0
         }
@@ -498,6 +498,7 @@ impl<'t, 'd> Gen<'t, 'd> {
             Some(self.num(a))
         };
         Func {
+            more: vec![],
             sty: self.sty(),
             vis: self.vis(),
             name,
@@ -1232,6 +1233,10 @@ impl<'t, 'd> Gen<'t, 'd> {
                 (a, b)
             }
         };
+        // both names must still be unique in the program (an earlier round may have aliased them already)
+        if structs.iter().filter(|(_, n)| *n == ta).count() != 1 || structs.iter().filter(|(_, n)| *n == tb).count() != 1 {
+            return;
+        }
         // nobody may be able to see both, and the new name must be free in B (also its generated table name)
         let nm = self.prog.mods.len();
         if (0..nm).any(|m| self.sees(m, ma, &ta) && self.sees(m, mb, &tb)) {
@@ -1307,13 +1312,40 @@ impl<'t, 'd> Gen<'t, 'd> {
     // ------------------------------------------------------------ name clashes
 
     fn clash_perturb(&mut self) {
-        let kind = self.t.below(if self.cfg.clash_renames { 8 } else if self.cfg.clash_field_renames { 6 } else { 4 });
+        let kind = self.t.below(if self.cfg.clash_renames { 9 } else if self.cfg.clash_field_renames { 6 } else { 4 });
         *self.repairs.entry(format!("clash-kind-{kind}")).or_default() += 1;
         match kind {
             0 => self.clash_dup_impl_fn(),
             1 | 2 => self.clash_redeclare_inherited(),
             3 => self.clash_duplicate_member(),
+            8 => self.odd_enum_base(),
             _ => self.clash_rename(!self.cfg.clash_renames),
+        }
+    }
+
+    /// an enum over something that is not an integer type (bool, a float, void, a user type, an extern type)
+    fn odd_enum_base(&mut self) {
+        let mut bases: Vec<String> = ["bool", "f32", "f64", "void"].iter().map(|s| s.to_string()).collect();
+        let mut sites = vec![];
+        for (mi, m) in self.prog.mods.iter().enumerate() {
+            for (ii, it) in m.items.iter().enumerate() {
+                match it {
+                    Item::Enum(_) => sites.push((mi, ii)),
+                    Item::Type(t) => bases.push(t.name.clone()),
+                }
+            }
+            bases.extend(m.ext_types.iter().map(|e| e.name.clone()));
+            bases.extend(m.enums().map(|e| e.name.clone()));
+        }
+        if sites.is_empty() {
+            return;
+        }
+        let (mi, ii) = sites[self.t.below(sites.len() as u64) as usize];
+        let b = bases[self.t.below(bases.len() as u64) as usize].clone();
+        if let Item::Enum(e) = &mut self.prog.mods[mi].items[ii] {
+            if e.name != b {
+                e.base = b;
+            }
         }
     }
 
